@@ -133,7 +133,7 @@ func nhCase(g *gen, dist map[string]int) (string, []map[string]string) {
 				reap(true) // the earlier sessions end while this request waits: settle them first
 			}
 			sendCh := make(chan msg.Message, 8)
-			tr := transport.NewMessageTransporter(sendCh)
+			tr := transport.NewMessageTransporter(sendCh, nil)
 			m := &msg.NatHoleVisitor{TransactionID: "tx", ProxyName: name, PreCheck: pre, Protocol: "quic", SignKey: sign, Timestamp: ts}
 			done := make(chan struct{})
 			before := c.VerifC08SessionCount()
